@@ -55,6 +55,7 @@ func c06clenv(d, m, k, v int) {
 	nomore := flags&SIPMsgNoMoreDataF != 0
 	vObs("ret", ret)
 	vObs("e", int(e))
+	vAssert("parsed-exactly-on-success", msg.Parsed() == (e == 0))
 	if tooBig {
 		vAssert("oversized-clen-rejected", e != 0 && e != ErrHdrMoreBytes)
 		vReach("toobig")
